@@ -2,7 +2,7 @@ PLAN = dict(
     id="C17", pkg="c17", level="exploration",
     rule=("chain-roundtrip: chains of 0..4 certificates drawn from a pool (6 fixtures + their CA + a throw-away P-384 CA + 8 leaves with P-256/P-384 keys, 1..60 SANs, "
           "0..900 bytes of padding; DER 400..2100 bytes) x OCSP / SCT blobs per element that are absent (nil), empty-but-present or of length 1,23,24,255,256,65535,65536 "
-          "(+-1, random) x presence patterns (valid; leaf without OCSP; OCSP on a non-leaf; both; empty chain; free). Valid pattern: Write succeeds, refcbor decodes the "
+          "(+-1, random) x presence patterns (valid; leaf without OCSP; OCSP on a non-leaf; both; empty chain; free); one case in four first writes the same chain to a destination that fails after 0..3000 bytes. Valid pattern: Write succeeds, refcbor decodes the "
           "output as exactly one array [text U+1F4DC U+26D3, map...] of len+1 elements whose maps have exactly the text keys cert/ocsp/sct that are present with byte-string "
           "values equal to the given bytes, refcbor.CheckDeterministic accepts it (shortest heads, keys ascending), ReadCertChain returns the same number of elements with "
           "bytes.Equal DER / OCSP / SCT (nil == empty) and what it returns can be written again. Invalid pattern: Write fails and leaves nothing that reads back as a chain, and "
